@@ -718,6 +718,12 @@ def run_call_case(env, spec, out):
             fails.append(('a warning was printed for a target that is documented as silently not converted: %r' % (warns[0][1][:120],), None))
         if spec['ctx'] == 'DISABLED' and cached_after and not d['in_cache']:
             fails.append(('a call under a DISABLED context was remembered in the allow-list cache (would suppress conversion later)', None))
+    st = out.setdefault('stats', {'converted_calls': 0, 'fallbacks': 0, 'reraised': 0, 'unwrapped_partials': 0, 'not_converted': 0})
+    st['converted_calls'] += 1 if fired > 0 else 0
+    st['not_converted'] += 1 if fired == 0 else 0
+    st['fallbacks'] += 1 if any(e[0] == 'fb' for e in ev) else 0
+    st['reraised'] += 1 if reraise_expected and got[0] == 'exc' else 0
+    st['unwrapped_partials'] += 1 if any(e[0] == 'reenter' for e in first) else 0
     for what, kf in fails:
         out['failures'].append((what, kf, spec))
     return d, ev, got, want
@@ -896,6 +902,7 @@ def _check(run, tmp):
     partial_failures = run_partials(run, tmp, rnd, thorough, other_cases)
     # ---------------------------------------------------------------- rules, is_unsupported, is_allowlisted
     pred_failures = run_predicates(run, tmp, rnd, thorough, other_cases)
+    run.extra['call_statistics'] = out.get('stats')
     run.extra['calls'] = ncalls
     run.extra['fault_injections'] = nfault
     run.extra['pipeline_stages'] = [s[0] for s in stages]
